@@ -28,7 +28,8 @@ EXTENDS ArkWorld, SequencesExt
 CONSTANTS CompSeq,    \* component names in registration (= ID) order, e.g. <<"A","B","R">>
           RelSet,     \* the relation components
           CapN, CapR, \* initial capacities: NewWorld(CapN, CapR)
-          ResetThr    \* column.Reset threshold (64 in the code, 1 in small models)
+          ResetThr,   \* column.Reset threshold (64 in the code, 1 in small models)
+          MaxLocks    \* number of lock bits (64 in the code)
 
 Comps == SetOf(CompSeq)
 SortComps(S) == SelectSeq(CompSeq, LAMBDA c : c \in S)
@@ -63,7 +64,9 @@ InitStorage ==
     [pool |-> <<>>, pnext |-> 0, pavail |-> 0, eidx |-> <<>>, isTgt |-> <<>>,
      tabs |-> <<NewTable(1, <<>>, EmptyFn, CapN)>>,
      archs |-> <<[NewArch({}) EXCEPT !.tables = <<1>>]>>,
-     cache |-> <<>>, err |-> ""]
+     cache |-> <<>>, err |-> "",
+     lk |-> [bits |-> [i \in 1..MaxLocks |-> 0], len |-> 0, next |-> 0, avail |-> 0, mask |-> {}],
+     qs |-> EmptyFn]
 
 (***************************************************************************)
 (* Entity pool (pool.go:40-78).                                            *)
@@ -517,6 +520,48 @@ BKillBatch(s0, flt, fid) ==
     IN Clean(a.s, 1)
 
 (***************************************************************************)
+(* World lock: bit pool and lock mask (pool.go:91-152, lock.go).  Bits are *)
+(* numbered from 0; position b+1 of lk.bits holds the link of bit b.       *)
+(***************************************************************************)
+LockFull(s) == s.lk.avail = 0 /\ s.lk.len >= MaxLocks
+
+BitPeek(s) == IF s.lk.avail = 0 THEN s.lk.len ELSE s.lk.next
+
+LockGet(s) ==          \* lock.Lock / LockSafe: bitPool.Get + locks.Set
+    IF s.lk.avail = 0
+    THEN [s EXCEPT !.lk.bits[s.lk.len + 1] = s.lk.len, !.lk.len = @ + 1, !.lk.mask = @ \cup {s.lk.len}]
+    ELSE LET cur == s.lk.next IN
+         [s EXCEPT !.lk.next = s.lk.bits[cur + 1], !.lk.bits[cur + 1] = cur, !.lk.avail = @ - 1,
+                   !.lk.mask = @ \cup {cur}]
+
+LockPut(s, b) ==       \* lock.Unlock / UnlockSafe: panics if the bit is not set
+    IF b \notin s.lk.mask THEN Fail(s, "unbalanced unlock")
+    ELSE [s EXCEPT !.lk.mask = @ \ {b}, !.lk.bits[b + 1] = s.lk.next, !.lk.next = b, !.lk.avail = @ + 1]
+
+IsLockedB(s) == s.lk.mask # {}
+
+\* queries: the rows still to be yielded are fixed while the world is locked
+BQOpen(s, q, flt, fid) ==
+    LET b == BitPeek(s) IN
+    [LockGet(s) EXCEPT !.qs = Merge(@, Single(q, [bit |-> b, rows |-> QueryRows(s, flt, fid)]))]
+BQNext(s, q) ==        \* yields Head(rows); on exhaustion the query closes itself
+    IF s.qs[q].rows = <<>> THEN [LockPut(s, s.qs[q].bit) EXCEPT !.qs = Drop(@, {q})]
+    ELSE [s EXCEPT !.qs[q].rows = Tail(@)]
+BQClose(s, q) == [LockPut(s, s.qs[q].bit) EXCEPT !.qs = Drop(@, {q})]
+
+\* C07: the bit pool is well formed; held bits are distinct; locked iff a query is open
+LockOK(s) ==
+    LET held == {s.qs[q].bit : q \in DOMAIN s.qs}
+        RECURSIVE Walk(_, _, _)
+        Walk(b, k, seen) == IF k = 0 THEN seen
+                            ELSE IF b < 0 \/ b >= s.lk.len \/ b \in seen THEN {-1}
+                            ELSE Walk(s.lk.bits[b + 1], k - 1, seen \cup {b})
+    IN /\ s.lk.mask = held
+       /\ Cardinality(held) = Cardinality(DOMAIN s.qs)
+       /\ s.lk.len <= MaxLocks
+       /\ Walk(s.lk.next, s.lk.avail, {}) = (0..(s.lk.len - 1)) \ held
+
+(***************************************************************************)
 (* Shrink (storage.go:703-750) and Reset (storage.go:284-295).             *)
 (***************************************************************************)
 \* mode "all": no time limit; mode "one": stopAfter = 0 (stop after the first table with work)
@@ -553,7 +598,9 @@ BReset(s) ==
                                         !.archs[ai] = [a EXCEPT !.freeT = @ \o a.tables, !.tables = <<>>,
                                                                 !.relT = [c \in DOMAIN @ |-> EmptyFn],
                                                                 !.tgtT = EmptyFn]], ai + 1)
-    IN Go([s EXCEPT !.pool = <<>>, !.pnext = 0, !.pavail = 0, !.eidx = <<>>, !.isTgt = <<>>, !.cache = <<>>], 1)
+    IN Go([s EXCEPT !.pool = <<>>, !.pnext = 0, !.pavail = 0, !.eidx = <<>>, !.isTgt = <<>>, !.cache = <<>>,
+                    !.lk = [bits |-> [i \in 1..MaxLocks |-> 0], len |-> 0, next |-> 0, avail |-> 0, mask |-> {}],
+                    !.qs = EmptyFn], 1)
 
 (***************************************************************************)
 (* Abstraction: the layer-A entities represented by a storage.             *)
